@@ -1722,6 +1722,218 @@ fn typetable() {
     println!("end");
 }
 
+// ---- declarations: how many values each variable receives -----------------------------------------
+
+/// what a declared variable receives (Lua manual 2.4.3 / 2.5: values are assigned positionally; every expression
+/// but the last is truncated to one value; a function call or `...` in LAST position provides all the remaining
+/// values, unless it is between parentheses; missing values are nil)
+#[derive(Clone, Debug, PartialEq)]
+enum Receives {
+    Nil,
+    /// the k-th value of the expression (printed by its Debug form)
+    Value(String, usize),
+}
+
+fn is_multi_valued(expression: &Expression) -> bool {
+    matches!(expression, Expression::Call(_) | Expression::VariableArguments(_))
+}
+
+fn first_value(expression: &Expression) -> Receives {
+    match expression {
+        Expression::Nil(_) => Receives::Nil,
+        other => Receives::Value(format!("{:?}", other), 0),
+    }
+}
+
+fn receives(values: &[&Expression], index: usize) -> Receives {
+    let count = values.len();
+    if count == 0 {
+        return Receives::Nil;
+    }
+    if index + 1 < count {
+        return first_value(values[index]);
+    }
+    let last = values[count - 1];
+    let extra = index - (count - 1);
+    if is_multi_valued(last) {
+        Receives::Value(format!("{:?}", last), extra)
+    } else if extra == 0 {
+        first_value(last)
+    } else {
+        Receives::Nil
+    }
+}
+
+/// compares what the first `names` variables receive in the original declaration and in the first statement of
+/// the re-parsed text
+fn declaration_verdict(original: &VariableAssignment, code: &Option<String>) -> String {
+    let code = match code {
+        Some(code) => code,
+        None => return "panic".to_owned(),
+    };
+    let parsed = match catch_unwind(AssertUnwindSafe(|| Parser::default().parse(code))) {
+        Ok(Ok(block)) => normalize_block_tokens(&block),
+        Ok(Err(_)) => return "err".to_owned(),
+        Err(_) => return "panic".to_owned(),
+    };
+    let written = match parsed.iter_statements().next() {
+        Some(Statement::LocalAssign(assign)) => assign.clone(),
+        _ => return "not-a-declaration".to_owned(),
+    };
+    if parsed.iter_statements().count() != 1 {
+        return "several-statements".to_owned();
+    }
+    let names: Vec<&str> = original.iter_variables().map(|v| v.get_name().as_str()).collect();
+    let written_names: Vec<&str> = written.iter_variables().map(|v| v.get_name().as_str()).collect();
+    if written_names.len() < names.len() || written_names[..names.len()] != names[..] {
+        return "names-differ".to_owned();
+    }
+    if written.get_assignment_kind() != original.get_assignment_kind() {
+        return "kind-differs".to_owned();
+    }
+    let a: Vec<&Expression> = original.iter_values().collect();
+    let b: Vec<&Expression> = written.iter_values().collect();
+    for i in 0..names.len() {
+        let (x, y) = (receives(&a, i), receives(&b, i));
+        if x != y {
+            return format!("variable-{}-receives-{}", i + 1, match y {
+                Receives::Nil => "nil".to_owned(),
+                Receives::Value(_, k) => format!("value-{}-of-another-expression", k + 1),
+            });
+        }
+    }
+    // every expression of the tree must still be evaluated, in order
+    if b.len() < a.len() || a.iter().zip(b.iter()).any(|(x, y)| format!("{:?}", x) != format!("{:?}", y)) {
+        return "values-differ".to_owned();
+    }
+    "ok".to_owned()
+}
+
+fn normalize_block_tokens(block: &Block) -> Block {
+    block.clone()
+}
+
+fn declaration_values() -> Vec<(&'static str, Expression)> {
+    let call = || Expression::from(FunctionCall::from_name("f"));
+    vec![
+        ("literal", gen::number("7")),
+        ("nil", Expression::nil()),
+        ("call", call()),
+        ("method_call", FunctionCall::from_name("o").with_method("m").into()),
+        ("varargs", Expression::variable_arguments()),
+        ("paren_call", ParentheseExpression::new(call()).into()),
+        ("paren_varargs", ParentheseExpression::new(Expression::variable_arguments()).into()),
+        ("if_expression", IfExpression::new(Expression::identifier("c"), call(), Expression::variable_arguments()).into()),
+        ("table", TableExpression::default().into()),
+        ("call_of_call", FunctionCall::from_prefix(Prefix::Call(Box::new(FunctionCall::from_name("f")))).into()),
+        ("string", StringExpression::from_value("s").into()),
+        ("binary_call", BinaryExpression::new(BinaryOperator::Plus, call(), call()).into()),
+    ]
+}
+
+/// `decl <id> <api|source> <generator> <span> <kind>:<vars>:<values>:<last>:<earlier> <text hex> <verdict>`
+fn decls() {
+    let names = ["a", "b", "c", "d"];
+    let mut id = 0usize;
+    let lasts = declaration_values();
+    let earlier_patterns: Vec<(&str, Vec<Expression>)> = vec![
+        ("literals", vec![gen::number("1"), gen::number("2"), gen::number("3")]),
+        ("calls", vec![FunctionCall::from_name("g").into(), Expression::variable_arguments(), FunctionCall::from_name("h").into()]),
+    ];
+    let emit = |id: &mut usize, origin: &str, tag: &str, declaration: &VariableAssignment| {
+        let block = Block::new(vec![declaration.clone().into()], None);
+        let mut texts: Vec<(&str, usize, Option<String>)> = Vec::new();
+        for span in [0usize, 7, 80] {
+            texts.push(("dense", span, dense(&block, span)));
+            texts.push(("readable", span, readable(&block, span)));
+        }
+        texts.push(("token_based", 0, token_based(&block)));
+        for (generator, span, text) in texts {
+            println!(
+                "decl {} {} {} {} {} {} {}",
+                *id, origin, generator, span, tag,
+                text.as_ref().map(|t| hex_or_dash(t.as_bytes())).unwrap_or_else(|| "PANIC".into()),
+                declaration_verdict(declaration, &text)
+            );
+            *id += 1;
+        }
+    };
+    for kind in [AssignmentKind::Local, AssignmentKind::Const] {
+        for variables in 1..=4usize {
+            let identifiers: Vec<TypedIdentifier> = names[..variables].iter().map(|n| TypedIdentifier::new(*n)).collect();
+            // no value at all
+            let declaration = VariableAssignment::new(identifiers.clone(), vec![]).with_assignment_kind(kind);
+            emit(&mut id, "api", &format!("{}:{}:0:none:none", kind.as_keyword(), variables), &declaration);
+            for values in 1..=4usize {
+                for (last_name, last) in &lasts {
+                    for (earlier_name, earlier) in &earlier_patterns {
+                        if values == 1 && *earlier_name == "calls" {
+                            continue;
+                        }
+                        let mut list: Vec<Expression> = earlier[..values - 1].to_vec();
+                        list.push(last.clone());
+                        let declaration = VariableAssignment::new(identifiers.clone(), list).with_assignment_kind(kind);
+                        emit(
+                            &mut id,
+                            "api",
+                            &format!("{}:{}:{}:{}:{}", kind.as_keyword(), variables, values, last_name, earlier_name),
+                            &declaration,
+                        );
+                    }
+                }
+            }
+        }
+    }
+    // parsed sources through process()
+    use darklua_core::GeneratorParameters;
+    let last_sources = ["7", "nil", "f()", "o:m()", "...", "(f())", "(...)", "if c then f() else ...", "{}", "f()()", "'s'", "f() + f()"];
+    for kind in ["local", "const"] {
+        for variables in 1..=4usize {
+            for values in 1..=4usize {
+                for last in last_sources {
+                    let mut list: Vec<&str> = ["g()", "...", "3"][..values - 1].to_vec();
+                    list.push(last);
+                    let source = format!("{} {} = {}\n", kind, names[..variables].join(", "), list.join(", "));
+                    let original = match catch_unwind(AssertUnwindSafe(|| Parser::default().parse(&source))) {
+                        Ok(Ok(block)) => block,
+                        _ => {
+                            println!("decl {} source unparsable 0 {}:{}:{}:{} {} skip", id, kind, variables, values, last.replace(' ', "_"), hex(source.as_bytes()));
+                            id += 1;
+                            continue;
+                        }
+                    };
+                    let declaration = match original.iter_statements().next() {
+                        Some(Statement::LocalAssign(assign)) => assign.clone(),
+                        _ => continue,
+                    };
+                    let mut generators: Vec<(&str, usize, GeneratorParameters)> = vec![("retain_lines", 0, GeneratorParameters::RetainLines)];
+                    for span in [1usize, 80] {
+                        generators.push(("dense", span, GeneratorParameters::Dense { column_span: span }));
+                        generators.push(("readable", span, GeneratorParameters::Readable { column_span: span }));
+                    }
+                    for (name, span, parameters) in generators {
+                        let output = process_source(&source, parameters);
+                        println!(
+                            "decl {} source {} {} {}:{}:{}:{} {} {}",
+                            id, name, span, kind, variables, values, last.replace(' ', "_"),
+                            output.as_ref().map(|t| hex_or_dash(t.as_bytes())).unwrap_or_else(|| "FAILED".into()),
+                            declaration_verdict(&declaration, &output)
+                        );
+                        id += 1;
+                    }
+                }
+            }
+        }
+    }
+    // the graph of the padding decision over the kinds of last value (const, two variables, one value)
+    for (name, value) in declaration_values() {
+        let declaration = VariableAssignment::new(vec![TypedIdentifier::new("a"), TypedIdentifier::new("b")], vec![value.clone()])
+            .with_assignment_kind(AssignmentKind::Const);
+        println!("declpad {} {} {}", name, declaration.required_nil_values(), if is_multi_valued(&value) { 1 } else { 0 });
+    }
+    println!("end");
+}
+
 // ---- literal leaves -------------------------------------------------------------------------
 
 fn number_text_value(text: &str) -> Option<f64> {
@@ -1878,6 +2090,7 @@ fn main() {
         "casts" => casts(),
         "leaves" => leaves(),
         "nodes" => nodes(),
+        "decls" => decls(),
         "types" => types(arg_u64(args, "--seed", 1), arg_u64(args, "--random", 150)),
         "typetable" => typetable(),
         "sources" => sources(),
